@@ -323,6 +323,7 @@ var c12VettedRejections = map[string]string{
 	"VestingPool.GetCurrentlyLocked() IsNegative":                          "Sent grows only where currentlyLocked >= amount and Withdrawn by at most currentlyLocked (C05.avail, C06.table)",
 	"GenesisState.VestingAccountTraceCount+VestingAccountTrace.Id cmp>=":   "AppendVestingAccountTrace assigns id = count and then stores count+1 (C17.only: single writer)",
 	"AccountVestingPools.VestingPools+VestingPool.VestingType not-modcall": "membership of the pool's vesting type among the vesting types, when the search is a helper of its own: a pool is created only with an existing vesting type and types are never removed at run time",
+	"VestingPool.VestingType not-modcall":                                  "as above (the pools are ranged over by index or the helper is handed the pool's type only)",
 	// cfevesting: vesting types (written by genesis and the v120 upgrade only; exported through UnitsFromDuration)
 	"GenesisVestingType.Name empty":                                              "vesting types come from a validated genesis or from the upgrade's constants",
 	"GenesisVestingType.LockupPeriod+GenesisVestingType.LockupPeriodUnit cmp<":   "periods are stored as validated at import; export renders them with a unit that divides them (C12.lossless)",
